@@ -1,12 +1,16 @@
 #!/bin/sh
-# usage: try_seed.sh <patch.diff> <prop> [<prop>...] — apply a seeded change to /repo, run the quick checks, undo
+# usage: try_seed.sh <patch.diff> <prop> [<prop>...] — run the quick checks against HEAD of /repo + a seeded change.
+# The change is applied in a scratch worktree (the checks are pointed at it with VERIF_REPO, their evidence and replay
+# files go to a scratch directory), which is the same as `git -C /repo apply` + checks + `git -C /repo checkout -- .`
+# but cannot disturb checks that are running against /repo at the same time.
 patch=$1; shift
-cd /repo || exit 2
-git apply --check "$patch" || { echo "PATCH DOES NOT APPLY"; exit 2; }
+wt=/tmp/seedwork/apply_$$
+git -C /repo worktree add --detach $wt HEAD >/dev/null 2>&1 || exit 2
+cd $wt || exit 2
+git apply --check "$patch" || { echo "PATCH DOES NOT APPLY"; git -C /repo worktree remove --force $wt; exit 2; }
 git apply "$patch"
 for p in "$@"; do
   echo "=== $p"
-  (cd /verif && timeout 3000 python3 tools/check.py $p --tier quick 2>&1 | grep -E "VIOLATION|KNOWN|^  " | head -8; echo "exit=$?")
+  (cd /verif && VERIF_REPO=$wt VERIF_OUT=/tmp/seedwork/tryout timeout 3000 python3 tools/check.py $p --tier quick 2>&1 | grep -E "VIOLATION|KNOWN|^  " | head -8)
 done
-git -C /repo checkout -- . 
-git -C /repo status --short | grep -v _build
+git -C /repo worktree remove --force $wt
